@@ -130,7 +130,6 @@ def asin_cap(start_lat, result_lat, name='equatorial'):
 
 def check_equatorial(ctx, name, jd0, jd1, lon, lat, lon2, lat2, klass, wide=True):
     """zero interval, rotation, there-and-back, angle preservation for precession_equatorial / _newcomb."""
-    yrs = (jd1 - jd0) / 365.25
     inp = {'check': 'equ', 'fn': name, 'args': [jd0, jd1, lon, lat], 'second': [lon2, lat2], 'polecap': 90.0}
     u = S.dirv(lon, lat)
     M = fk5_matrix(jd0, jd1)
@@ -397,6 +396,26 @@ def check_pm_ecl(ctx, lon, lat, eps, pm, klass):
     ctx.deviation('p_motion_total_relative' + ('@within_0.01deg_of_a_pole' if near else ''), rel)
     S.predicate(ctx, PROPERTY, 'total_proper_motion_invariant', rel <= 1e-9 or near, inp,
                 {'equatorial': tot_eq, 'ecliptical': tot_ec, 'rel': rel}, klass)
+
+
+def check_anchors(ctx):
+    """Meeus examples 21.b (theta Persei), 21.c (Venus, ecliptical), 22.a (obliquity), 24.b (orbit)."""
+    Angle, Epoch, C = _mods()
+    # Meeus example 21.b (theta Persei) and 21.c (Venus, ecliptical) as anchors
+    ctx.sample({'call': 'precession_equatorial(J2000, Epoch(2028, 11, 13.19), Angle(2,44,11.986,ra=True), Angle(49,13,42.48), 0.03425/3600*15, -0.0895/3600)',
+                'expected': '(41.5472125, 49.3484833)'})
+    v = prec(ctx, 'equatorial', J2000, Epoch(2028, 11, 13.19).jde(), (2 + 44 / 60.0 + 11.986 / 3600.0) * 15.0,
+             49 + 13 / 60.0 + 42.48 / 3600.0, (0.03425 * 15.0 / 3600.0, -0.0895 / 3600.0))
+    S.predicate(ctx, PROPERTY, 'anchor_meeus_21b', v is not None and abs(v[0] - (2 + 46 / 60.0 + 11.331 / 3600.0) * 15.0) < 1e-5
+                  and abs(v[1] - (49 + 20 / 60.0 + 54.54 / 3600.0)) < 1e-5, {'check': 'anchor'}, v)
+    o = orbit(ctx, 2358042.5305, 2433282.4235, 47.122, 151.4486, 45.7481)
+    S.predicate(ctx, PROPERTY, 'anchor_meeus_24b_orbit', o is not None and abs(o[0] - 47.138) < 6e-4 and abs(o[1] - 151.4782) < 6e-5
+                  and abs(o[2] - 48.6037) < 6e-5, {'check': 'anchor'}, o)
+    v = prec(ctx, 'ecliptical', J2000, Epoch(-214, 6, 30.0).jde(), 149.48194, 1.76549)
+    S.predicate(ctx, PROPERTY, 'anchor_meeus_21c', v is not None and abs(v[0] - 118.704) < 1e-3 and abs(v[1] - 1.615) < 1e-3,
+                  {'check': 'anchor'}, v)
+    e = obliquity(ctx, Epoch(1987, 4, 10.0).jde())
+    S.predicate(ctx, PROPERTY, 'anchor_meeus_22a_obliquity', abs(e - (23 + 26 / 60.0 + 27.407 / 3600.0)) < 1e-6, {'check': 'anchor'}, e)
 
 
 # ------------------------------------------------------------------ generators
